@@ -733,7 +733,15 @@ ITER_FUNCS = {
                       "State.dependency_priorities", "State.dependency_lines", "order_ascc", "order_ascc_ex",
                       "sorted_components", "sorted_components_inner", "deps_filtered"],
     "mypy/graph_utils.py": ["prepare_sccs"],
-    "mypy/nodes.py": ["SymbolTable.write", "SymbolTable.serialize"],
+    "mypy/nodes.py": ["SymbolTable.write", "SymbolTable.serialize", "TypeInfo.protocol_members"],
+    # round 6: message generation
+    "mypy/errors.py": ["Errors.file_messages", "Errors.new_messages", "Errors.generate_unused_ignore_errors",
+                       "Errors.generate_ignore_without_code_errors", "Errors.remove_duplicates", "Errors.render_messages",
+                       "Errors.targets"],
+    "mypy/messages.py": ["best_matches", "pretty_seq", "format_key_list", "format_item_name_list",
+                         "MessageBuilder.unexpected_typeddict_keys", "MessageBuilder.report_protocol_problems",
+                         "MessageBuilder.pretty_overload", "MessageBuilder.cannot_instantiate_abstract_class",
+                         "get_missing_protocol_members", "get_conflict_protocol_types", "get_bad_protocol_flags"],
     "mypy/server/deps.py": ["merge_dependencies"],
     "mypy/typestate.py": ["TypeState.update_protocol_deps", "TypeState._snapshot_protocol_deps"],
 }
